@@ -64,6 +64,8 @@ use crate::cryptonote::hash;
 use crate::cryptonote::subaddress::{self, get_spend_secret_key, Index};
 use crate::util::key::{KeyPair, PrivateKey, PublicKey, ViewPair};
 
+use curve25519_dalek::scalar::Scalar;
+
 /// Special factor used in all `vR` and `rV` multiplications.
 pub const MONERO_MUL_FACTOR: u8 = 8;
 
@@ -80,16 +82,18 @@ impl KeyGenerator {
     /// Construct a onetime key generator from public keys and secret random, this is used to
     /// generate onetime keys for output indexes from an address when sending funds.
     pub fn from_random(view: PublicKey, spend: PublicKey, random: PrivateKey) -> Self {
-        // Computes r*8*V
-        let rv = random * MONERO_MUL_FACTOR * &view;
+        // Computes 8*(r*V): the cofactor is applied to the point, not to the scalar modulo l, so
+        // that a small-order component of `V` is cleared
+        let rv = PrivateKey::from_scalar(Scalar::from(MONERO_MUL_FACTOR)) * &(random * &view);
         KeyGenerator { spend, rv }
     }
 
     /// Construct a onetime key generator from private keys and public random (tx pubkey), this is
     /// used to scan if some outputs contains onetime keys owned by the view pair.
     pub fn from_key(keys: &ViewPair, random: PublicKey) -> Self {
-        // Computes v*8*R
-        let rv = keys.view * MONERO_MUL_FACTOR * &random;
+        // Computes 8*(v*R): the cofactor is applied to the point, not to the scalar modulo l, so
+        // that a small-order component of `R` is cleared
+        let rv = PrivateKey::from_scalar(Scalar::from(MONERO_MUL_FACTOR)) * &(keys.view * &random);
         KeyGenerator {
             spend: keys.spend,
             rv,
